@@ -233,6 +233,31 @@ fn s_literals(t: &mut Tape, ctx: &mut Ctx) -> Result<(), Failure> {
     } else {
         lit
     };
+    // a digit that does not belong to the radix, somewhere after the first digit (judged inside
+    // programs only: the value entry point does not read to the end of its input)
+    let mut foreign_digit = false;
+    let lit = if t.chance(1, 25) {
+        let mut cs: Vec<char> = lit.chars().collect();
+        let body_start = if lit.starts_with("0b") || lit.starts_with("0x") { 2 } else { 0 };
+        let digit_positions: Vec<usize> = (body_start..cs.len()).filter(|i| cs[*i] != '_').collect();
+        if digit_positions.len() >= 2 {
+            let at = digit_positions[1 + t.index(digit_positions.len() - 1)];
+            cs[at] = if lit.starts_with("0b") {
+                char::from(b'2' + t.index(8) as u8)
+            } else if lit.starts_with("0x") {
+                char::from(b'g' + t.index(20) as u8)
+            } else {
+                char::from(b'a' + t.index(6) as u8)
+            };
+            foreign_digit = true;
+            label.push("foreign-digit");
+            cs.into_iter().collect()
+        } else {
+            lit
+        }
+    } else {
+        lit
+    };
     for l in &label {
         ctx.label(&format!("lit:{l}"));
     }
@@ -248,8 +273,8 @@ fn s_literals(t: &mut Tape, ctx: &mut Ctx) -> Result<(), Failure> {
     ctx.evals(1);
     let parsed = catch(|| Value::parse_from_str(&lit, &rty).map_err(|e| e.to_string())).map_err(|p| pfail("Value::parse_from_str", &p, &lit))?;
     match (&parsed, &expect) {
-        (_, None) if prefix_only => {
-            ctx.label("lit:prefix-only(level-2-only)");
+        (_, None) if prefix_only || foreign_digit => {
+            ctx.label("lit:prefix-only-or-foreign-digit(level-2-only)");
         }
         (Ok(got), Some(v)) => {
             let want = conv::to_value(&Val::UInt(bits, *v), &ty);
@@ -400,7 +425,7 @@ pub fn streams() -> Vec<Stream> {
 pub fn def() -> PropertyDef {
     PropertyDef {
         id: "C11",
-        rule: "literals: width N in {1,2,4,8,16,32,64,128,256} x value (0, 1, 2, 2^N-1, powers of ten and neighbours, alternating bit patterns, random) x notation {decimal, binary, hex} x decoration (underscores anywhere incl. leading / trailing / doubled, up to 90 leading zeros, one digit more / fewer, digit string of another width, 2^N and 2^N+1, 90-110 digit runs, upper-case hex, no digit at all). Oracle: own big-integer arithmetic (schoolbook on 32-bit limbs) gives the mathematical value and the accept / reject verdict of the statement; Value::parse_from_str(lit, uN) must equal the value built with the Rust constructors or be Err; `let x: uN = LIT; assert!(eq(x, witness::W))` must be accepted iff valid, succeed for W = value and fail for W with one bit flipped (through commit / satisfy / encode / decode / Bit Machine); the printed integer parses back. bytes: hex literals at [u8; n], n in 0..64, exact / odd / one byte more / fewer; in a third of the cases the same digits also at [T; n] for T in {u1,u4,u16,u32,bool,(),[u8;1],Option<u8>}, alone or inside an outer array / list / Some: the result must be Err or a value of the requested type, and must not panic. evaluations = parses + program runs. Non-trivial = decorated or boundary literal; distinct by digest of (literal, width).",
+        rule: "literals: width N in {1,2,4,8,16,32,64,128,256} x value (0, 1, 2, 2^N-1, powers of ten and neighbours, alternating bit patterns, random) x notation {decimal, binary, hex} x decoration (underscores anywhere incl. leading / trailing / doubled, up to 90 leading zeros, one digit more / fewer, digit string of another width, 2^N and 2^N+1, 90-110 digit runs, upper-case hex, no digit at all, one digit that does not belong to the radix - judged inside programs only). Oracle: own big-integer arithmetic (schoolbook on 32-bit limbs) gives the mathematical value and the accept / reject verdict of the statement; Value::parse_from_str(lit, uN) must equal the value built with the Rust constructors or be Err; `let x: uN = LIT; assert!(eq(x, witness::W))` must be accepted iff valid, succeed for W = value and fail for W with one bit flipped (through commit / satisfy / encode / decode / Bit Machine); the printed integer parses back. bytes: hex literals at [u8; n], n in 0..64, exact / odd / one byte more / fewer; in a third of the cases the same digits also at [T; n] for T in {u1,u4,u16,u32,bool,(),[u8;1],Option<u8>}, alone or inside an outer array / list / Some: the result must be Err or a value of the requested type, and must not panic. evaluations = parses + program runs. Non-trivial = decorated or boundary literal; distinct by digest of (literal, width).",
         assumptions: &[],
         streams,
         health: &[("literals", "lit:underscores", 100), ("literals", "lit:no-digit", 10), ("literals", "lit:overflow", 10)],
